@@ -81,7 +81,7 @@ def instr_ast(mnem, ops):
         return ".TESTW %d %s" % (int(o[0][1:], 0), r(o[1]))
     if mnem == "SHRL" and o[0].startswith("$"):
         return ".SHRL %d %s" % (int(o[0][1:], 0), r(o[1]))
-    if mnem == "LEAQ":
+    if mnem == "LEAQ" and not o[0].endswith("(FP)"):
         d, b, i = parse_mem(o[0])
         if i is not None:
             return ".LEAQx %s %s %s %s" % (li(d), r(b), r(i), r(o[1]))
@@ -122,6 +122,28 @@ def instr_ast(mnem, ops):
         return ".CMPQi %s %d" % (r(o[0]), int(o[1][1:], 0))
     if mnem == "CMPB" and "HasAVX2" in ops and o[-1] == "$1":
         return ".CMPBavx2"
+    if mnem == "CMPB" and "HasPOPCNT" in ops and o[-1] == "$1":
+        return ".CMPBpopcnt"
+    m = re.match(r"^(\w+)\+\d+\(FP\)$", o[0]) if o else None
+    if mnem == "MOVQ" and m and o[1] in REGS:
+        return '.MOVQarg "%s" %s' % (m.group(1), r(o[1]))
+    if mnem == "MOVB" and m and o[1] in ("AL",):
+        return '.MOVBarg "%s" .AX' % m.group(1)
+    if mnem == "LEAQ" and m and m.group(1) == "ret":
+        return ".LEAQret %s" % r(o[1])
+    if mnem == "LEAL":
+        d, b, i = parse_mem(o[0])
+        if i is not None:
+            raise ValueError("LEAL with index")
+        return ".LEAL %s %s %s" % (li(d), r(b), r(o[1]))
+    if mnem == "ADDL" and o[0].startswith("$"):
+        return ".ADDLi %s %s" % (li(int(o[0][1:], 0)), r(o[1]))
+    if mnem == "CMPB" and len(o) == 2 and o[0] in ("AL", "CX", "AX") and o[1].startswith("$"):
+        return ".CMPBi %s %d" % (r({"AL": "AX"}.get(o[0], o[0])), int(o[1][1:], 0))
+    if mnem in ("JLS", "JHI") and len(o) == 1 and re.match(r"^\w+$", o[0]):
+        return '.%s "%s"' % (mnem, o[0])
+    if mnem == "JMP" and len(o) == 1 and o[0].endswith("(SB)"):
+        return '.TAIL "%s"' % o[0][:-4].replace("\u00b7", "").replace("<>", "")
     if mnem == "ANDQ" and o[0].startswith("$"):
         return ".ANDQi %d %s" % (int(o[0][1:], 0), r(o[1]))
     if mnem == "ADDQ" and o[0].startswith("$"):
@@ -218,6 +240,58 @@ def body_prog(path, sym):
     return "[\n" + ",\n".join(rows) + "]", stuck
 
 
+def wrapper_prog(path, sym):
+    """an ABI wrapper (TEXT ·Sym) as an Asm.Prog; `Jcc k(PC)` becomes a jump to a synthetic label placed k instructions
+    ahead; preprocessor conditionals are kept as in the default build (macro not defined)"""
+    cur_sym, ins = "", []          # ins: list of ("label", name) | ("instr", mnem, ops)
+    for raw in open(path, encoding="utf-8"):
+        line = raw.split("//")[0].strip()
+        if not line or line.startswith("#"):
+            continue
+        m = re.match(r"TEXT\s+([^\s(]+)\(SB\)", line)
+        if m:
+            cur_sym = m.group(1).replace("\u00b7", "").replace("<>", "")
+            continue
+        if cur_sym != sym:
+            continue
+        m = re.match(r"^([A-Za-z_][\w]*):$", line)
+        if m:
+            ins.append(("label", m.group(1)))
+            continue
+        parts = line.split(None, 1)
+        ins.append(("instr", parts[0], parts[1] if len(parts) > 1 else ""))
+    # desugar relative jumps
+    out, pending = [], {}
+    idx = [k for k, x in enumerate(ins) if x[0] == "instr"]
+    for n, k in enumerate(idx):
+        x = ins[k]
+        m = re.match(r"^(\d+)\(PC\)$", x[2].strip())
+        if m:
+            tgt = idx[n + int(m.group(1))] if n + int(m.group(1)) < len(idx) else None
+            name = "pc%d" % (n + int(m.group(1)))
+            if tgt is not None:
+                pending[tgt] = name
+            ins[k] = ("instr", x[1], name)
+    blocks, order, label, stuck = {"entry": []}, ["entry"], "entry", 0
+    for k, x in enumerate(ins):
+        if k in pending:
+            label = pending[k]
+            blocks[label] = []
+            order.append(label)
+        if x[0] == "label":
+            label = x[1]
+            blocks[label] = []
+            order.append(label)
+            continue
+        try:
+            blocks[label].append(instr_ast(x[1], x[2]))
+        except ValueError:
+            blocks[label].append(".STUCK")
+            stuck += 1
+    rows = ['  ("%s", [%s])' % (l, ", ".join(blocks[l])) for l in order]
+    return "[\n" + ",\n".join(rows) + "]", stuck
+
+
 def lean_int(i):
     return str(i) if i >= 0 else "(%d)" % i
 
@@ -249,6 +323,16 @@ def main():
         w.append("open _root_.Asm.Instr _root_.Asm.Reg _root_.Asm.XReg in")
         w.append("/-- %d instructions outside the modelled subset -/" % stuck)
         w.append("def body_%s : _root_.Asm.Prog := %s" % (sym, lit))
+    for f, sym in [("internal/bytealg/indexbyte_go122_amd64.s", "IndexByte"),
+                   ("internal/bytealg/indexbyte_go122_amd64.s", "IndexByteString"),
+                   ("internal/bytealg/index_non_ascii_go122_amd64.s", "IndexByteNonASCII"),
+                   ("internal/bytealg/index_non_ascii_go122_amd64.s", "IndexNonASCII"),
+                   ("internal/bytealg/count_go122_amd64.s", "Count"),
+                   ("internal/bytealg/count_go122_amd64.s", "CountString")]:
+        lit, stuck = wrapper_prog(os.path.join(repo, f), sym)
+        w.append("open _root_.Asm.Instr _root_.Asm.Reg _root_.Asm.XReg in")
+        w.append("/-- ABI wrapper; %d instructions outside the modelled subset -/" % stuck)
+        w.append("def wrap_%s : _root_.Asm.Prog := %s" % (sym, lit))
     w.append("end Gen.Asm")
     text = "\n".join(w) + "\n"
     if not (os.path.exists(out) and open(out).read() == text):
